@@ -675,7 +675,7 @@ func evExec(w *world, f []string) (res string, ok bool) {
 		ne.installTokenMeta()
 		s.TakeRefreshRequested()
 		return ne.answer("ok "), true
-	case "evpart", "evks", "evtmeta", "evrouted":
+	case "evpart", "evks", "evtmeta", "evrouted", "evscache", "evschema":
 		a, _ := tokenMetaExec(e, f)
 		return a, true
 	case "evhost":
@@ -851,7 +851,7 @@ func (g *evGen) lastOpWord() string {
 	for i := len(g.cases) - 1; i >= 0; i-- {
 		w := strings.Fields(g.cases[i].op)[0]
 		switch w {
-		case "evtmeta", "evrouted", "evnotoffered", "evnostale", "evfollows", "evfollowsx", "evinpolicy", "evinpolicyx", "evpart", "evks":
+		case "evtmeta", "evrouted", "evnotoffered", "evnostale", "evfollows", "evfollowsx", "evinpolicy", "evinpolicyx", "evpart", "evks", "evscache", "evschema":
 			continue
 		}
 		return w
@@ -1101,6 +1101,7 @@ func (g *evGen) direct() {
 			g.emit("evnotoffered", "evnotoffered/spec-backed", true)
 		}
 		g.tokenOps(pol, g.lastOpWord())
+		g.schemaOps(false)
 	}
 	if !g.dead {
 		g.emit("evnostale", "evnostale/spec-backed", true)
@@ -1362,5 +1363,6 @@ func (g *evGen) withControl() {
 			g.emit("evnotoffered", "evnotoffered/spec-backed", true)
 		}
 		g.tokenOps(pol, g.lastOpWord())
+		g.schemaOps(true)
 	}
 }
